@@ -256,6 +256,25 @@ static void property_c10(Src& s, Case& c) {
   const bool raw_ok = s.coin(1, 4);  // keys spelled with the minimal (deterministic) escapes: raw spellings are predictable
   if (raw_ok) lay.escapes = false;
   MV v = gen_value(s, go);
+  if (s.coin(1, 30)) {
+    // a sibling that holds hundreds of small containers of its own kind sits before (and after) the rest of the document: the
+    // scanner has to skip it as ONE value
+    MV many = gen_many_containers(s);
+    if (s.coin(1, 2)) {
+      MV w = MV::arr();
+      w.a.push_back(many);
+      w.a.push_back(v);
+      w.a.push_back(MV::uint(7));
+      v = w;
+    } else {
+      MV w = MV::obj();
+      w.o.emplace_back("many", many);
+      w.o.emplace_back("rest", v);
+      w.o.emplace_back("last", MV::uint(7));
+      v = w;
+    }
+    c.cls("sibling-with-hundreds-of-containers");
+  }
   std::string text = render(s, v, lay);
   int place = (int)s.weighted({2, 2, 1});
   c.note("text", text);
